@@ -53,11 +53,11 @@ Print Assumptions C26_loop_defer.
    buffer 0 to the sink runs exactly three times on three items *)
 Example C26_example :
   let sg := {| sg_recv := [(0%N, false)]; sg_send := [(0%N, SExit)];
-               sg_nodes := [ {| n_id := 0%N; n_kind := NOp (OStateless (fun i => [firstn 1 (port 0 i); skipn 1 (port 0 i)]));
+               sg_slots := []; sg_nodes := [ {| n_id := 0%N; n_kind := NOp (OStateless (fun i => [firstn 1 (port 0 i); skipn 1 (port 0 i)]));
                                 n_ins := [0%N]; n_outs := [1%N; 0%N] |};
                              {| n_id := 1%N; n_kind := NSink 0; n_ins := [1%N]; n_outs := [] |} ] |} in
   let w0 := {| w_buf := [(0%N, [VN 7; VN 8; VN 9])]; w_back := []; w_st := []; w_out := []; w_tick := 0%N;
-               w_wake := false; w_work := false; w_oof := false |} in
+               w_wake := false; w_work := false; w_oof := false; w_panic := false |} in
   let w := exec [] (IGate false [CBuf 0%N] [IRun sg] []) w0 in
   (get 0%N (w_out w), get 0%N (w_buf w), w_oof w) =
   ([VP (VN 0) (VN 7); VP (VN 0) (VN 8); VP (VN 0) (VN 9)], [], false).
